@@ -225,7 +225,7 @@ def DLSpec (D : Dec F E) (flat : Bytes) (acc : Nat) : DL F E → Prop
       ExpSound D (flat.drop d') exp'
   | .frame d f => ∃ d', d = acc + d' ∧ 1 ≤ d' ∧ d' ≤ flat.length ∧
       run D (.hdr []) (flat.take d') = (PSt.ofRem (D.kind f).rem, [.frame f])
-  | .error d e => ∃ d' n, d = acc + d' ∧ 1 ≤ n ∧ d' + n ≤ flat.length ∧
+  | .error d _ e => ∃ d' n, d = acc + d' ∧ 1 ≤ n ∧ d' + n ≤ flat.length ∧
       run D (.hdr []) (flat.take d') = (.hdr [], []) ∧
       run D (.hdr []) ((flat.drop d').take n) = (.dead, [.errProto e])
 
@@ -290,7 +290,7 @@ theorem decLoop_spec (D : Dec F E) (L : Laws D) (fuel : Nat) (flat : Bytes) (exp
               rw [List.take_add]
             rw [this, run_append, hr]
             simp [hrun]
-          | error d e =>
+          | error d _ e =>
             rintro ⟨d', k, rfl, hk1, hd', hrun0, hrun⟩
             refine ⟨n + d', k, by omega, hk1, by simp at hd'; omega, ?_, ?_⟩
             · have : flat.take (n + d') = flat.take n ++ (flat.drop n).take d' := by
